@@ -58,6 +58,12 @@ func verifE3Stage2(pj *internalParsedJson) (ok, done bool) {
 	}
 }
 
+// verifE3Stage2Fail stands in for unifiedMachine in the sync-path lemma G2, where only the producer's sends matter:
+// stage 2 gives up at once (so the real drain loop of the sync branch runs over everything stage 1 sent).
+func verifE3Stage2Fail(pj *internalParsedJson) (ok, done bool) {
+	return false, false
+}
+
 // verifE3_ParseAsync: one call of the real parseMessage on a message longer than the async
 // threshold (length fixed by the encoder from the threshold literal found in the SSA).
 func verifE3_ParseAsync() {
@@ -80,6 +86,7 @@ func verifE3_UpdateCharStep() {
 	verifAssume(pj.indexesChan.index >= 0 && pj.indexesChan.index < pj.indexesChan.length && pj.indexesChan.length <= indexSize)
 	before := pj.indexesChan.index
 	done, _ := updateChar(pj, nondetU64("e3.step.idx"))
+	verifReach("Q1.step")
 	verifAssert(!done, "Q1.step: updateChar with index<length reported done")
 	verifAssert(pj.indexesChan.index == before+1, "Q1.step: updateChar with index<length did not advance index by one")
 	verifAssert(pj.indexesChan.indexes == &pj.buffers[slot], "Q1.step: updateChar changed the held buffer without a receive")
